@@ -14,6 +14,7 @@ Requests (tab separated):
   `i` sliceInclusive, `e` removeStepEnd, `z` setEmptySlice, `s` descentSiblings, `u` removeUnionNeg,
   `o` genUnionOOB, `n` genModifyNil, `f` filterMapNil, `r` rootScalar.
 * `script <name> <value>` — the truth value of a filter script on a value.
+* `current` — the letters of `Dev.current` (the harness asks once, so that flipping a flag in Model.lean is enough).
 * path: fragments separated by `/` (`-` = the empty path): `c:<hex key>`, `n:<int>`, `w`, `d`,
   `u:<member>,…` (`k<hex>` / `i<int>`), `s:<start>:<end>:<step>` (`_` absent), `f:<script name>` — one of
   the scripts of `script` below (the harness checks that the library's Script.Match computes the same
@@ -173,6 +174,13 @@ def parseDev (s : String) : Option Dev :=
            genModifyNil := s.contains 'n', filterMapNil := s.contains 'f', rootScalar := s.contains 'r' }
   else none
 
+/-- the letters of the deviations a `Dev` has on -/
+def devLetters (d : Dev) : String :=
+  let l := (if d.sliceInclusive then "i" else "") ++ (if d.removeStepEnd then "e" else "") ++ (if d.setEmptySlice then "z" else "") ++
+    (if d.descentSiblings then "s" else "") ++ (if d.removeUnionNeg then "u" else "") ++ (if d.genUnionOOB then "o" else "") ++
+    (if d.genModifyNil then "n" else "") ++ (if d.filterMapNil then "f" else "") ++ (if d.rootScalar then "r" else "")
+  if l = "" then "-" else l
+
 def parseModifier (s : String) : Option Modifier :=
   if s = "I" then some fun v => (v, true)
   else if s = "U" then some fun v => (v, false)
@@ -258,6 +266,7 @@ def handle : List String → String
       else if outcome = "err" then judgeErr x d d' o
       else "bad-op"
     | _, _, _, _, _ => "bad-op"
+  | ["current"] => devLetters Dev.current
   | ["script", name, value] =>
     match script name, parseJV value with
     | some p, some v => toString (p v)
